@@ -189,12 +189,23 @@ class Gen:
             opts += ["CSWAP"]
         if len(focks) >= 2:
             opts += ["BS", "BS"] if self.focus not in ("C11",) else ["BS"] * 6
+        if len(focks) >= 2:
+            opts += ["EXPRF"] * (3 if self.focus in ("C03", "C01", "C15") else 1)
         nonf = [s for s in mem if not isinstance(s, Fock)]
         if len(nonf) >= 2:
             opts += ["EXPR"] * (4 if self.focus in ("C03", "C16") else 1)
         if not opts:
             return None
         g = r.choice(opts)
+        if g == "EXPRF":
+            ts = r.sample(focks, 2)
+            if not all(self.guard_ok(w, t) for t in ts):
+                return None
+            prev = [x for x in getattr(self, "exprf_history", []) if True]
+            chi = r.choice(prev) if prev and r.random() < 0.7 else round(r.uniform(0.3, 2.5), 3)
+            self.exprf_history = getattr(self, "exprf_history", []) + [chi]
+            return {"kind": "op", "gate": "ExprFock", "targets": [w.sid(t) for t in ts], "entry": "ce", "h": hi,
+                    "params": {"chi": chi}, "reuse": True}
         if g == "EXPR":
             k = min(len(nonf), r.choice([2, 3, 3, 3, 4]))
             ts = r.sample(nonf, k)
@@ -481,6 +492,11 @@ class Gen:
                 ts.append(r.choice(other))
             elif mem and r.random() < 0.5:
                 ts.append(r.choice(mem))
+            rest3 = [s for s in mem if not any(s is x for x in ts)]
+            if len(ts) == 2 and rest3 and r.random() < 0.45:
+                # three operands, possibly spread over several product spaces, in an order of their own
+                ts.append(r.choice(rest3))
+                r.shuffle(ts)
         if en == "env":
             e = t.envelope
             if r.random() < 0.4 and not e.fock.measured and not e.polarization.measured:
@@ -513,7 +529,7 @@ class Gen:
 
     def invalid(self, w):
         r = self.rng
-        what = r.choice(["kraus_not_tp", "kraus_imag_defect", "kraus_offdiag_defect", "kraus_wrong_size", "povm_wrong_size", "wrong_kind", "custom_wrong_size", "shrink_below_support", "annihilate_vacuum", "destroyed"])
+        what = r.choice(["kraus_not_tp", "kraus_imag_defect", "kraus_offdiag_defect", "kraus_wrong_size", "povm_wrong_size", "foreign_member", "foreign_member", "wrong_kind", "custom_wrong_size", "shrink_below_support", "annihilate_vacuum", "destroyed"])
         cands = self.live(w)
         if not cands:
             return None
@@ -546,6 +562,34 @@ class Gen:
             else:
                 ops = [K]
             st["ops"] = [mj(x) for x in ops]
+        elif what == "foreign_member":
+            # a request through an envelope / composite envelope that names a subsystem which is not one of
+            # its members -- preferably one that holds the same value as a member (value equality must not help)
+            how = r.choice(["env", "env", "ce"])
+            if how == "env":
+                es = [e for e in w.envs if not e.measured and not e.fock.measured and not e.polarization.measured]
+                if len(es) < 2:
+                    return None
+                ea, eb = r.sample(es, 2)
+                t = r.choice([eb.fock, eb.polarization])
+                st = {"kind": "invalid", "what": "foreign_member", "how": "env", "env": ix(w.envs, ea), "targets": [w.sid(t)],
+                      "call": r.choice(["apply_kraus", "measure_POVM", "apply_operation", "trace_out", "measure", "reorder"])}
+            else:
+                if len(w.handles) < 1:
+                    return None
+                hi = r.randrange(len(w.handles))
+                out = [x for x in self.live(w) if not has(w.handles[hi].state_objs, x)]
+                own = [x for x in w.handles[hi].state_objs if not getattr(x, "measured", False)]
+                if not out or not own:
+                    return None
+                t = r.choice(out)
+                st = {"kind": "invalid", "what": "foreign_member", "how": "ce", "h": hi, "targets": [w.sid(t)], "own": w.sid(r.choice(own)),
+                      "call": r.choice(["apply_kraus", "measure_POVM", "apply_operation", "trace_out", "measure", "combine", "reorder", "resize_fock"])}
+            if isinstance(t, Fock) and t.dimensions < 0:
+                return None
+            dt = dims_of(t)
+            st["ops"] = [mj(K) for K in rand_kraus(self.rs, dt, 2)]
+            return st
         elif what == "kraus_wrong_size":
             st["ops"] = [mj(K) for K in rand_kraus(self.rs, d + 1, 2)]
         elif what == "povm_wrong_size":
@@ -670,6 +714,18 @@ class Gen:
             out.append({"kind": "measure", "targets": m, "entry": r.choice(["ce", "ce", "state"]), "h": 0, "sep": True, "destructive": r.random() < 0.4})
             if out[-1]["entry"] == "state":
                 out[-1]["targets"] = m[:1]
+        elif f in ("C03", "C01") and H is not None and r.random() < 0.35 and len([x for x in members(0) if isinstance(x, Fock)]) >= 2:
+            # one Expression operation object (context entries depend on the dimensions) applied to two
+            # Fock spaces of unequal occupation, then -- the same object -- to the same pair in the other order
+            fs = [x for x in members(0) if isinstance(x, Fock)][:2]
+            a, b2 = sid(fs[0]), sid(fs[1])
+            if self.joint_dim(w) <= 72:
+                chi = round(r.uniform(0.4, 2.2), 3)
+                for t in (a, b2):
+                    if dims_of(w.subs[t]) >= 2 or w.subs[t].dimensions < 0:
+                        out.append({"kind": "op", "targets": [t], "entry": "state", "gate": "Creation"}) if r.random() < 0.5 else None
+                out.append({"kind": "op", "gate": "ExprFock", "targets": [a, b2], "entry": "ce", "h": 0, "params": {"chi": chi}, "reuse": True})
+                out.append({"kind": "op", "gate": "ExprFock", "targets": [b2, a], "entry": "ce", "h": 0, "params": {"chi": chi}, "reuse": True})
         elif f == "C08" and r.random() < 0.35:
             # nearly pure state: a weak channel (mixing probability 2e-6 .. 5e-5) on a subsystem in
             # superposition, own / combined-envelope / product-space storage, followed by a few
